@@ -310,6 +310,28 @@ def o4(W, ob):
         g = W.guard(c, d.bb)
         ok = any(k.endswith('.last_frame') for k in ks) and \
             every_disjunct_has(g, lambda a: a[0] == 'bool' and a[1].endswith('.disconnected') and a[2] is False)
+    if not upd:
+        # the same reduction written with iterators: status.iter().filter(|c| !c.disconnected).map(|c| c.last_frame).min()
+        for t in find_min_chain(W, c):
+            ch = iter_chain(W, c, t)
+            segs = [x for x, _ in ch]
+            srcs = [term for seg, term in ch if seg in ('iter', 'into_iter')]
+            src_ok = bool(srcs) and srcs[0].args and srcs[0].args[0].is_place() and 'local_connect_status' in cx.ap_carry(srcs[0].args[0].place).s(c)
+            filt = mp = False
+            for seg, term in ch:
+                if seg in ('filter', 'map', 'filter_map') and len(term.args) > 1:
+                    cl = closure_of_operand(W, c, term.args[1])
+                    if cl and cl[0] == 'closure':
+                        e = closure_return_expr(W, cl[1])
+                        k = key(e)
+                        if seg == 'filter' and e[0] == 'un' and e[1] == 'Not' and k.endswith('.disconnected)'):
+                            filt = True
+                        if seg == 'map' and k.endswith('.last_frame'):
+                            mp = True
+            extra = [x for x in segs if x not in ('iter', 'into_iter', 'filter', 'map', 'min', 'copied', 'cloned', 'deref', 'as_slice')]
+            if src_ok and filt and mp and not extra:
+                ok = True
+                upd = [t]
     ob.check(ok and len(upd) == 1, 'confirmed_frame|min-connected', 'confirmed_frame() is the min of last_frame over connected players',
              'confirmed_frame() is not a min over `!disconnected` entries', where(c))
 
